@@ -1824,3 +1824,32 @@ def own_subsample_modified(H):
     d = prs.downsample(H["seqs_arr"], 3)
     d[:] = "X"
     return None
+
+
+# =============================================================================================
+# inputs larger than internal palettes / cycles / default bin ranges
+# =============================================================================================
+@heap
+def many_labels():
+    return ["L%02d" % (i % 27) for i in range(40)]
+
+
+@op("colors", rand=True)
+def colors_tableau_many(H):
+    return pp.labels_to_colors_tableau(H["many_labels"])
+
+
+@op("colors", rand=True)
+def colors_tableau_many_mincount(H):
+    return pp.labels_to_colors_tableau(pd.Series(H["many_labels"]), min_count=2)
+
+
+@op("colors", rand=True)
+def colors_hls_many(H):
+    return pp.labels_to_colors_hls(H["many_labels"])
+
+
+@op("pcDelta")
+def pcDelta_long_strings(H):
+    a = ["C" + "ASSLGQAYEQYF" * 3, "C" + "AWSVGTDTQYF" * 3, "CASSF", "C" + "ASRLGQAYEQYF" * 3]
+    return [prs.pcDelta(a), prs.pdist(a), prs.pdist(["A" * 300, "C" * 300, "A" * 299])]
